@@ -254,6 +254,7 @@ def run(ctx, sess):
     ctx.rule('C02.8', 'the sample converter fills what it is asked for: traced for every accepted data type and counts around the byte boundaries (1, 2, 7, 8, 9, 15, 16, 17, 64), jls_dt_buffer_to_f64 stores every entry 0..samples-1 of its destination')
     ctx.rule('C02.4', 'sample-id frames on the statistics path: the sample_id_offset is applied exactly once to each value and no compare mixes an api-relative id with a file id')
     ctx.rule('C02.9', 'the entries a request is answered from are those of the summary chunk it walks: after a nested read for an unaligned edge (which loads other chunks into the same buffer) the summary chunk is read again before its entries are used (shared with C10.28)')
+    ctx.rule('C02.10', 'statistics describe the written samples also for fixed-point types: tracing the sample converter for every accepted type with a fixed-point position set, no converted value is rescaled (the samples read back are the plain integers, so a rescaled summary would not describe them)')
     ctx.rule('C02.5', 'shared: non-finite values are skipped at every level (C09.4); accumulator algebra of statistics.c - alias safety, empty operands, extremes, non-negative variance, no division by a zero count (C20.1-C20.5); the summary payload length covers every entry of either width (C05.11); the level-0 scratch is filled only up to its allocated length (C10.23)')
     columns_rule(ctx, P, 'C02.1')
     extremes_rule(ctx, P, 'C02.2')
@@ -388,6 +389,32 @@ def converter_rule(ctx, P, rule):
     ctx.ob(rule, not bad, fn.name, 'every requested entry is converted', fn.where(),
            '%d (type, count) pairs traced' % n if not bad else
            '; '.join(bad[:2]) + ' [types failing: %s] (%d of %d pairs): statistics over the last samples of a block whose count is not a multiple of what one byte holds are computed from whatever the scratch held before' % (sorted(set(b_.split(',')[0] for b_ in bad)), len(bad), n))
+    # summaries describe the integers that were written (what jls_rd_fsr returns): a fixed-point position in the data type
+    # does not rescale the converted values
+    scaled = []
+    nq = 0
+    for dt in sorted(dts):
+        for q in (1, 8, 0xfd):
+            dtv = dt | (q << 16)
+            hits = []
+
+            def on_store2(ev, env, sym, hits=hits):
+                lhs, rhs, o = ev.store_parts()
+                l0 = strip_casts(lhs)
+                if o in ('*=', '/=') and l0.get('op') in ('sub', 'un') and (l0.get('t') or '') in ('f64', 'f32'):
+                    hits.append(ev)
+            try:
+                trace_calls(P, fn, {fn.params[1]['name']: dtv, dst: 0x100000, fn.params[3]['name']: 3, fn.params[0]['name']: 0x200000},
+                            assume_calls=0, partial=True, max_steps=6000, on_store=on_store2, no_inline=('uint4_to_int8',))
+            except Top:
+                continue
+            nq += 1
+            if hits:
+                scaled.append('type 0x%x with position %d: %s' % (dt, q if q < 128 else q - 256, show(hits[0].e)[:50]))
+    ctx.ob('C02.10', not scaled, fn.name, 'converted values are the written integers whatever the fixed-point position', fn.where(),
+           '%d (type, position) pairs traced: no rescaling store' % nq if not scaled else
+           '; '.join(scaled[:2]) + ' (%d pairs): every mean, min, max and std of such a signal is a power of two away from the samples that were written and that jls_rd_fsr returns' % len(scaled))
+    ctx.floor('(type, position) pairs traced through the converter', nq, 20)
     if unsupported:
         ctx.note('%s: types the converter refuses (no case): %s' % (rule, ['0x%x' % d_ for d_ in sorted(unsupported)]))
     ctx.floor('(type, count) pairs traced through the converter', n, 60)
